@@ -92,6 +92,17 @@ def main():
                 ss = [Fr(rnd.randint(0, 4096), 4096) for _ in range(count - 2)] + [Fr(0), Fr(1)]
                 add(rnd.choice(["evaluate_multi", "Curve.evaluate_multi"]), nodes, ss, "T")
 
+        # (f) every degree around and above the switch between the two evaluation algorithms (wherever the tree puts it): one
+        #     unit net in the middle of the net (the largest binomial coefficient) and the all-ones net, a few parameters
+        hi_degs = sorted(set(range(48, 101)) | set(range(max(1, thr - 8), thr + 24)))
+        if not (thorough or search):
+            hi_degs = sorted(set(rnd.sample(hi_degs, 24)) | {thr - 2, thr - 1, thr, thr + 1, 61, 62, 63, 66, 67})
+        for n in hi_degs:
+            mid = n // 2 + rnd.choice([-3, -1, 0, 2])
+            net = [[Fr(1) if j == mid else Fr(0) for j in range(n + 1)], [Fr(1)] * (n + 1)]
+            add(rnd.choice(["evaluate_multi", "evaluate_multi_barycentric", "Curve.evaluate_multi"]), net,
+                [Fr(1, 2), Fr(rnd.choice([5, 7, 9, 11]), 16), Fr(0), Fr(1)], "T")
+
     drv = C.Driver()
     for routine, nodes, ss, regime in cases:
         drv.ask("evalmulti", thr, nodes, ss)
@@ -121,7 +132,7 @@ def main():
         out = np.asarray(out)
         key = (routine, C.jfr(nodes) if dim <= 4 else ("identity", n), C.jfr(ss))
         res.count(key, nontrivial=(n >= 1), routine=routine, regime=regime, dim=min(dim, 5),
-                  degree_band=("1-8" if n <= 8 else "9-49" if n < 50 else "50-60" if n <= 60 else "61-80"),
+                  degree_band=("1-8" if n <= 8 else "9-49" if n < 50 else "50-60" if n <= 60 else "61-80" if n <= 80 else "81-100"),
                   nparams=len(ss))
         res.sample({"routine": routine, "degree": n, "dim": dim, "regime": regime,
                     "params": C.jfr(ss[:3]), "impl_first": out[0, 0].hex()})
